@@ -8,8 +8,8 @@
 (* compute_estimated_margin, one action per code step:                     *)
 (*   Rescale       perc_expected_vote_corr = turnout / turnout[-1]         *)
 (*                 (all 0 when the last turnout is 0)                       *)
-(*   CheckMonotone np.all(np.diff(corr) >= 0), else 101 missing rows with  *)
-(*                 error type "non-monotone percent expected vote"         *)
+(*   CheckMonotone np.all(np.diff(turnout) >= 0), else 101 missing rows    *)
+(*                 with error type "non-monotone percent expected vote"    *)
 (*   Scale         percent_expected_vote = corr * percent_expected_vote[-1]*)
 (*   Batch         batch margin of the votes between version i and i+1,    *)
 (*                 0/0 -> 0, x/0 -> infinity, last one 0                    *)
@@ -28,22 +28,25 @@
 (*                    (no votes), not the first observed margin.           *)
 (*   LatestPercent    "the unit's latest percent" is the RE-SCALED one: a  *)
 (*                    unit whose final turnout is 0 yields only percent 0. *)
-(* Defects of the code as found, switched on by constants (finding         *)
-(* demonstrations; OFF in the models that decide the property):            *)
-(*   IntTruncation    with integer-typed count columns the quotient        *)
-(*                    turnout / turnout[-1] is written into an integer     *)
-(*                    array (out=zeros_like(turnout), casting="unsafe"):   *)
-(*                    every re-scaled percent collapses to 0 or the last   *)
-(*                    percent.  (V1)                                        *)
-(*   the scenario class "turnout falls to 0 in the last version" is not    *)
-(*                    recognised as non-monotone because the where= guard  *)
-(*                    leaves every quotient 0.  (V2; MC constant           *)
-(*                    AllowZeroFinal admits the class)                      *)
+(* Defects of the code as first found - both since repaired in /repo -     *)
+(* can be switched back on by constants (finding demonstrations; OFF in    *)
+(* every model that decides the property or is compared with the code):    *)
+(*   IntTruncation       (V1) with integer-typed count columns the         *)
+(*                    quotient turnout / turnout[-1] was written into an   *)
+(*                    integer array (out=zeros_like(turnout),              *)
+(*                    casting="unsafe"): every re-scaled percent collapsed *)
+(*                    to 0 or the last percent.  Repaired: float output.   *)
+(*   MonotoneOnRescaled  (V2) the monotonicity test was made on the        *)
+(*                    re-scaled quotients; when the turnout falls to 0 in  *)
+(*                    the last version the where= guard leaves them all 0  *)
+(*                    and the test passed.  Repaired: the test is made on  *)
+(*                    the turnout itself.                                   *)
 (***************************************************************************)
 EXTENDS Integers, Sequences, FiniteSets, TLC
 
-CONSTANTS IntTruncation,   \* BOOLEAN - model the code as found on integer-typed count columns (V1)
-          MaxDist          \* BootstrapElectionModel.max_dist_to_observed (default 5)
+CONSTANTS IntTruncation,       \* BOOLEAN - the code as first found on integer-typed count columns (V1, repaired)
+          MonotoneOnRescaled,  \* BOOLEAN - the code as first found: monotonicity tested on the quotients (V2, repaired)
+          MaxDist              \* BootstrapElectionModel.max_dist_to_observed (default 5)
 
 VARIABLES sc,      \* [hist : Seq([t, d, g]), pev : <<num, den>>]  versions oldest first; pev = percent of the LAST one
           pc,      \* next code step
@@ -110,7 +113,9 @@ Rescale ==
 
 CheckMonotone ==
   /\ pc = "mono"
-  /\ IF \A i \in 1..(N - 1) : RLe(corr[i], corr[i + 1])
+  /\ IF (IF MonotoneOnRescaled
+         THEN \A i \in 1..(N - 1) : RLe(corr[i], corr[i + 1])
+         ELSE \A i \in 1..(N - 1) : H[i].t <= H[i + 1].t)
      THEN pc' = "scale" /\ UNCHANGED <<kind, nrows>>
      ELSE pc' = "done" /\ kind' = NONMONO /\ nrows' = 101
   /\ UNCHANGED <<sc, corr, pct, batch, rows>>
